@@ -74,13 +74,61 @@ def count_literal(tokens: List[tuple], ch: str) -> int:
 
 
 # -------------------------------------------------------------- if/elif chains
-def eq_chain(body: List[ast.stmt], var_pred: Callable[[ast.AST], bool]) -> List[Tuple[ast.AST, List[ast.stmt], ast.If]]:
+def expand_table_branch(ifn: ast.If, var_pred, lit) -> List[Tuple[ast.AST, List[ast.stmt], ast.If]]:
+    """``if var in TABLE: <body using TABLE[var]>`` with a literal dict TABLE is the chain ``if var == K1: <body[V1]> elif ...``.
+    ``setattr(obj, "name", x)`` with the now constant name is rewritten to ``obj.name = x`` (and getattr likewise)."""
+    import copy
+    t = ifn.test
+    if not (isinstance(t, ast.Compare) and len(t.ops) == 1 and isinstance(t.ops[0], ast.In) and var_pred(t.left)) or lit is None:
+        return []
+    try:
+        table = lit(t.comparators[0])
+    except Exception:
+        return []
+    if not isinstance(table, dict):
+        return []
+    tname = ast.unparse(t.comparators[0])
+    out = []
+
+    class Sub(ast.NodeTransformer):
+        def __init__(self, val):
+            self.val = val
+
+        def visit_Subscript(self, n):
+            if ast.unparse(n.value) == tname and var_pred(n.slice):
+                return ast.copy_location(ast.Constant(value=self.val), n)
+            return self.generic_visit(n)
+
+        def visit_Call(self, n):
+            n = self.generic_visit(n)
+            if isinstance(n.func, ast.Name) and n.func.id == "getattr" and len(n.args) >= 2 and isinstance(n.args[1], ast.Constant) \
+                    and isinstance(n.args[1].value, str):
+                return ast.copy_location(ast.Attribute(value=n.args[0], attr=n.args[1].value, ctx=ast.Load()), n)
+            return n
+
+        def visit_Expr(self, n):
+            n = self.generic_visit(n)
+            c = n.value
+            if isinstance(c, ast.Call) and isinstance(c.func, ast.Name) and c.func.id == "setattr" and len(c.args) == 3 and \
+                    isinstance(c.args[1], ast.Constant) and isinstance(c.args[1].value, str):
+                tgt = ast.Attribute(value=c.args[0], attr=c.args[1].value, ctx=ast.Store())
+                return ast.fix_missing_locations(ast.copy_location(ast.Assign(targets=[tgt], value=c.args[2]), n))
+            return n
+    for k, v in table.items():
+        body = [ast.fix_missing_locations(Sub(v).visit(copy.deepcopy(st))) for st in ifn.body]
+        out.append((ast.copy_location(ast.Constant(value=k), t), body, ifn))
+    return out
+
+
+def eq_chain(body: List[ast.stmt], var_pred: Callable[[ast.AST], bool], lit=None) -> List[Tuple[ast.AST, List[ast.stmt], ast.If]]:
     """All branches ``if <var> == <const>: body`` (if / elif chains and sibling
-    ifs) directly inside ``body``.  Returns (const node, branch body, If node)."""
+    ifs) directly inside ``body``.  Returns (const node, branch body, If node).  With ``lit`` (a literal evaluator), a
+    ``if <var> in TABLE:`` branch over a literal dict is expanded into one branch per entry."""
     out = []
 
     def take(ifn: ast.If):
         t = ifn.test
+        out.extend(expand_table_branch(ifn, var_pred, lit))
         if isinstance(t, ast.Compare) and len(t.ops) == 1 and isinstance(t.ops[0], ast.Eq):
             l, r = t.left, t.comparators[0]
             if var_pred(l):
@@ -98,7 +146,7 @@ def eq_chain(body: List[ast.stmt], var_pred: Callable[[ast.AST], bool]) -> List[
         if isinstance(s, ast.If):
             take(s)
         elif isinstance(s, (ast.For, ast.While, ast.With, ast.Try)):
-            out.extend(eq_chain(s.body, var_pred))
+            out.extend(eq_chain(s.body, var_pred, lit))
     return out
 
 
